@@ -84,11 +84,15 @@ func recoverDefers(fn *ssa.Function) (defs []*ssa.Defer, handlers []*ssa.Functio
 			if !ok {
 				continue
 			}
-			mc, ok := d.Call.Value.(*ssa.MakeClosure)
-			if !ok {
+			var cl *ssa.Function
+			if mc, ok := d.Call.Value.(*ssa.MakeClosure); ok {
+				cl = mc.Fn.(*ssa.Function)
+			} else if sc := d.Call.StaticCallee(); sc != nil && sc.Blocks != nil && fnPkgPath(sc) == fnPkgPath(fn) {
+				cl = sc // `defer p.recoverExpr(&expr, p.Lexer.Clone())`: a method deferred directly, which calls recover() itself
+			}
+			if cl == nil {
 				continue
 			}
-			cl := mc.Fn.(*ssa.Function)
 			if len(recoverCalls(cl)) > 0 {
 				defs = append(defs, d)
 				handlers = append(handlers, cl)
